@@ -9,7 +9,8 @@ import am
 ASSUME = [
     "the wall clock used inside txtorcon.addrmap (datetime.utcnow) is replaced, in the harness process only, by one that follows the "
     "twisted task.Clock driving the timers; TZ=UTC so the local-time and UTC EXPIRES syntaxes denote the same instant",
-    "lookups are observed at quiescence: after an event the clock is advanced by 0 so zero-delay timers run",
+    "several events may arrive within one reactor turn: zero-delay timers (mappings already expired on arrival) run at the next "
+    "Advance, which may be by 0; the lookup clauses are waived for such an entry until the reactor has turned",
     "each name has its own pool of addresses (address lookups are unambiguous)",
     "the model's tick is replayed as 7 s, 5 h and 13 h (offsets then cross 24 h and reach several days)",
 ]
@@ -19,15 +20,30 @@ SYNTAXES = ["local", "utc", "cached"]
 
 def rand_script(rng, n):
     s = []
+    now, exp = 0, {}
     for _ in range(n):
-        if rng.random() < 0.6:
-            nm = rng.choice(["n1", "n2"])
+        overdue = [x for x, t in exp.items() if t != am.NEVER and t <= now]
+        r = rng.random()
+        if overdue and r < 0.45:
+            s.append(dict(a="Advance", dt=0))          # a reactor turn without passage of time
+            dt = 0
+        elif r < 0.65:
+            nm = rng.choice(overdue) if overdue and rng.random() < 0.7 else rng.choice(["n1", "n2"])
             pool = ["a1", "a2"] if nm == "n1" else ["b1", "b2"]
             addr = rng.choice(pool + pool + ["<error>"])
-            k = rng.choice([-2, -1, 1, 1, 2, 3, 5, 8, am.NEVER])
+            k = rng.choice([-2, -1, 0, 1, 1, 2, 3, 5, 8, am.NEVER])
             s.append(dict(a="Event", n=nm, addr=addr, k=k))
+            if addr == "<error>":
+                exp.pop(nm, None)
+            else:
+                exp[nm] = am.NEVER if k == am.NEVER else now + k
+            continue
         else:
-            s.append(dict(a="Advance", dt=rng.choice([1, 1, 2, 3])))
+            dt = rng.choice([1, 1, 2, 3])
+            s.append(dict(a="Advance", dt=dt))
+        now += dt
+        for x in [x for x, t in exp.items() if t != am.NEVER and t <= now]:
+            del exp[x]
     return s
 
 
